@@ -185,6 +185,13 @@ func (ch *c11Chain) c11AddDV(al *c11Alphabet, h int64, full bool) {
 		it := &c11Item{Name: fmt.Sprintf("dv%d/genuine-same-hash", h), Class: "dv:genuine-same-hash-other-parts", Ev: ev, Base: true, Misb: fmt.Sprintf("dv-v1-h%d", h)}
 		it.Genuine, it.VoteA, it.VoteB = true, ev.VoteA.Copy(), ev.VoteB.Copy()
 		al.add(it)
+		// validator 0 equivocates a second time in the same height: conflicting precommits in round 1 as well as in round 0
+		// ("genuine"). Same validator, height and vote type, another round: a different piece of evidence (different hash)
+		// of a different misbehaviour; reported next to "genuine" before the height is decided, both must become pending.
+		ev1 := mk(ch.c11DVVote(0, c11ChainID, h, 1, pc, x, 0), ch.c11DVVote(0, c11ChainID, h, 1, pc, y, 0), vp, tp, ts)
+		it1 := &c11Item{Name: fmt.Sprintf("dv%d/genuine-round1", h), Class: "dv:genuine-second-equivocation-round1", Ev: ev1, Base: true, Misb: misb + "-r1"}
+		it1.Genuine, it1.VoteA, it1.VoteB = true, ev1.VoteA.Copy(), ev1.VoteB.Copy()
+		al.add(it1)
 	}
 	// sign bytes do not cover the validator index: different bytes, same proven misbehaviour
 	{
